@@ -181,7 +181,9 @@ def apalache(w, sub, tla, inv, cinit="CInit", init="Init", length=0, timeout=900
     """Symbolic (unbounded-integer) check of one invariant with Apalache; any outcome but NoError is inconclusive."""
     d = w.copy_spec(sub)
     out = w.path("apalache_%s_%s" % (tla.replace(".tla", ""), inv))
-    cmd = ["apalache-mc", "check", "--out-dir=" + out, "--cinit=" + cinit, "--init=" + init, "--inv=" + inv, "--length=%d" % length, tla]
+    cmd = ["apalache-mc", "check", "--out-dir=" + out, "--init=" + init, "--inv=" + inv, "--length=%d" % length, tla]
+    if cinit and cinit != init:
+        cmd.insert(3, "--cinit=" + cinit)
     t = time.time()
     try:
         p = subprocess.run(cmd, cwd=d, stdout=subprocess.PIPE, stderr=subprocess.STDOUT, text=True, timeout=timeout,
